@@ -48,6 +48,12 @@ func runC06(w *World, r *Report) {
 	sizeRules(w, r, func(k *Kind) bool { return true })
 	r.Rule("order", "builders only extend the lists the encoder walks; they never reassign elements in place", 5)
 	orderRule(w, r)
+	// an encoder that sizes its buffer from a stored length is only as right as that length is at the moment of
+	// encoding (a child that grew after it was added): the C02 rule
+	r.Rule("wirelen", "the declared length each encoder puts on the wire (and sizes its buffer by) equals the bytes the element occupies at the moment of encoding (the C02 rule)", 34)
+	if ak, ik, ok := elementKinds(w); ok {
+		runWirelen(w, r, ak, ik)
+	}
 	r.Rule("childerr", "the error of every encode call that can fail is read before the child's bytes are used (a child that produced nothing makes the parent fail instead of being left out silently)", 60)
 	childErrRule(w, r, "childerr")
 	r.Rule("noconsume", "size functions, encoders and read accessors (Get*, Header, String) hand nothing reachable from the value to outside code that could change it (a drained reader, a re-sorted list): what was added stays in the message", 200)
@@ -141,6 +147,33 @@ func orderRule(w *World, r *Report) {
 				continue
 			}
 			pos := w.Pos(m.Decl.Pos())
+			// an adder extends the list on every successful path: a path that returns with the list as it was has
+			// dropped its argument (or put it somewhere the encoder does not look for it)
+			if bad == "" {
+				extended, skipped := 0, token.NoPos
+				for _, rt := range fs.Rets {
+					if rt.IsErr || rt.St == nil {
+						continue
+					}
+					grown := false
+					if sv, ok := rt.St.fields[touched].(SliceV); ok {
+						for _, e := range sv.Elems {
+							if sp, isSpread := e.(SpreadV); !isSpread || sp.S.Path != touched {
+								grown = true
+							}
+						}
+					}
+					if grown {
+						extended++
+					} else if skipped == token.NoPos {
+						skipped = rt.Pos
+					}
+				}
+				if extended > 0 && skipped != token.NoPos && !guardedByNilArg(m, rt0Guard(fs, skipped)) {
+					r.Fail(VViolation, "order", m.Key, touched+"/every-path", w.Pos(skipped), "the builder extends "+touched+" on some paths and returns with the list unchanged on another: on that path what the caller handed over is not encoded where the API put it (it is dropped, or folded into an element that was added earlier)")
+					continue
+				}
+			}
 			if bad != "" {
 				r.Fail(VViolation, "order", m.Key, bad, pos, "the builder assigns to elements of "+bad+" in place: elements that were already added change position (or are lost), so the children are not encoded in the order the API was given them")
 			} else {
@@ -148,4 +181,25 @@ func orderRule(w *World, r *Report) {
 			}
 		}
 	}
+}
+
+// rt0Guard returns the path condition of the return at pos.
+func rt0Guard(fs *FuncSummary, pos token.Pos) string {
+	for _, rt := range fs.Rets {
+		if rt.Pos == pos {
+			return rt.Guard
+		}
+	}
+	return ""
+}
+
+// guardedByNilArg: the path is taken only when an argument is nil (nothing to add).
+func guardedByNilArg(m *FuncInfo, guard string) bool {
+	for _, cj := range conjunctsOf(guard) {
+		cj = strings.TrimSpace(cj)
+		if strings.HasPrefix(cj, "arg:") && strings.HasSuffix(cj, "==nil") {
+			return true
+		}
+	}
+	return false
 }
